@@ -143,6 +143,8 @@ type interpreter struct {
 	maxDepth  int
 	initAllow func(pkgPath string) bool // which package initialisers are executed
 	pools     map[*value][]value        // sync.Pool model: LIFO per pool object
+	syncMaps  map[*value]*omap          // sync.Map model: one insertion-ordered map per sync.Map object
+	fresh     func()                    // symFreshProcess: globals under test back to their initial values
 	stubs     map[string]value          // function redirections installed by a harness
 	monitor   *monitor
 	unsupportedSeen map[string]int
